@@ -333,6 +333,9 @@ def finding_matches(f, prop, clause, case):
     if f.get("clause") and f["clause"] != clause:
         return False
     src = case.get("src", "")
+    if "token_regex" in f:
+        wt = case.get("witness_text")
+        return wt is not None and re.fullmatch(f["token_regex"], wt, re.S) is not None
     if "source" in f and f["source"] == src:
         return True
     if "source_regex" in f and re.fullmatch(f["source_regex"], src, re.S):
